@@ -104,6 +104,9 @@ func (c *Ctx) record(rule, key, status string, p token.Pos, note string, nontriv
 		}
 		// a later configuration is worse: fall through and append with config
 	}
+	if len(note) > 400 {
+		note = note[:400] + "…"
+	}
 	c.Instances = append(c.Instances, Instance{Rule: rule, Key: key, Status: status, Pos: c.pos(p), Note: note, Config: c.Config.Name, Nontrivial: nontrivial})
 }
 
@@ -134,6 +137,14 @@ func (c *Ctx) addFinding(kind, rule, key string, p token.Pos, fn, msg string, de
 	for _, f := range c.Findings {
 		if f.Rule == rule && f.Key == key {
 			return
+		}
+	}
+	if len(detail) > 24 {
+		detail = append(detail[:24:24], fmt.Sprintf("… %d more lines", len(detail)-24))
+	}
+	for i := range detail {
+		if len(detail[i]) > 600 {
+			detail[i] = detail[i][:600] + "…"
 		}
 	}
 	c.record(rule, key, kind, p, msg, true)
@@ -168,8 +179,46 @@ func (c *Ctx) checkError(msg string) {
 
 func (c *Ctx) sample(v interface{}) {
 	if len(c.Samples) < 40 {
-		c.Samples = append(c.Samples, v)
+		c.Samples = append(c.Samples, trimSample(v))
 	}
+}
+
+// trimSample keeps evidence files small: long strings and long lists are cut.
+func trimSample(v interface{}) interface{} {
+	switch x := v.(type) {
+	case string:
+		if len(x) > 300 {
+			return x[:300] + "…"
+		}
+		return x
+	case []string:
+		var out []interface{}
+		for i, s := range x {
+			if i >= 16 {
+				out = append(out, fmt.Sprintf("… %d more", len(x)-i))
+				break
+			}
+			out = append(out, trimSample(s))
+		}
+		return out
+	case []interface{}:
+		var out []interface{}
+		for i, s := range x {
+			if i >= 16 {
+				out = append(out, fmt.Sprintf("… %d more", len(x)-i))
+				break
+			}
+			out = append(out, trimSample(s))
+		}
+		return out
+	case map[string]interface{}:
+		out := map[string]interface{}{}
+		for k, s := range x {
+			out[k] = trimSample(s)
+		}
+		return out
+	}
+	return v
 }
 
 var unsafeName = regexp.MustCompile(`[^A-Za-z0-9_.-]+`)
